@@ -26,7 +26,7 @@
 #include <sys/mman.h>
 #include <unistd.h>
 
-#define MAXT 64
+#define MAXT 256
 #define TSTACK (192 * 1024)
 #define V0STACK (2 * 1024 * 1024)
 #define TFILL (12 * 1024)  /* bytes of each team stack (from the top) refilled with garbage per team */
